@@ -174,6 +174,16 @@ func (vc *VC) execFunc(fn *ssa.Function, args []Val, st *State, reach string, de
 			l.unroll = l.ann.Unroll
 		}
 	}
+	if contract != nil && depth == 0 && vc.quiet == 0 {
+		for ord := range contract.Loops {
+			if ord >= len(fr.loops) {
+				// the loop a loop contract was written for is gone (moved into a helper, merged, rewritten):
+				// the contract has to move with it. Undecided, reported under its own name.
+				vc.oblige("stale-loop", fmt.Sprintf("%s#stale-loop-contract:loop%d", shortFn(fn), ord), vc.pos(fn.Pos()),
+					fmt.Sprintf("loop %d of the contract [%s] no longer exists in the function (it has %d loops): the proof has to be redone for the rewritten code", ord, contract.Src, len(fr.loops)), reach, "false", nil)
+			}
+		}
+	}
 	if nested {
 		for _, l := range fr.loops {
 			l.unroll = 0
